@@ -19,7 +19,8 @@ META = {
 }
 GROUP = "planner"
 REQ = "From RV Require Import Prelude.\nFrom Planner Require Import Graph PlannerModel PlanCache.\nOpen Scope N_scope.\nNotation case := case22 (only parsing)."
-THEOREMS = []
+THEOREMS = ["C22_matches_iff", "C22_matches_old_refuted", "C22_cache_transparent", "C22_cache_transparent_from",
+            "C22_hit_only_if_cold_ok", "C22_step_total", "C22_example"]
 
 
 def main(ctx):
@@ -30,7 +31,7 @@ def main(ctx):
     ctx.trusted += ["run-time only: std::sync::Mutex, Arc, rayon thread pools, OS scheduling (observed, not modelled)",
                     "hook rten::verif::planner::TestGraph::run = Graph::run (what Model::run calls)"]
     ctx.audit(GROUP)
-    failed = ctx.prove(GROUP, "Props_C22", THEOREMS) if THEOREMS else []
+    failed = ctx.prove(GROUP, "Props_C22", THEOREMS)
     ok, out = ctx.make(GROUP, ["PlanCache.vo"])
     if not ok:
         raise vf.CheckerBroken("model does not build: " + out[-1500:])
